@@ -1233,6 +1233,12 @@ func (a *alertState) triggered(t time.Time) {
 func (a *alertState) addEvent(t time.Time, level alert.Level) {
 	// Check for changes
 	a.changed = a.history[a.idx] != level
+	if a.changed && a.history[a.idx] == alert.OK {
+		// The alert leaves the OK state now, whether or not this event is sent to
+		// the handlers (it may be suppressed by flap detection). The duration of all
+		// later events is measured from here.
+		a.firstTriggered = t
+	}
 
 	// Add event to history
 	a.idx = (a.idx + 1) % len(a.history)
